@@ -27,7 +27,7 @@ func init() {
 		NumCases:    func(tier string) int { return pick(tier, 600, 20000) + pick(tier, 200, 5000) + pick(tier, 400, 12000) },
 		Run:         runC14,
 		Floor: func(tier string, st map[string]int64) string {
-			for _, k := range []string{"decodes", "c14.encoder-files-read", "c14.copyto-images-decoded", "c14.big-value-cases", "c14.max-key-cases", "c14.empty-collection-images", "c14.root-last-checked", "c14.concurrent-flush-images"} {
+			for _, k := range []string{"decodes", "c14.encoder-files-read", "c14.copyto-images-decoded", "c14.big-value-cases", "c14.max-key-cases", "c14.empty-collection-images", "c14.root-last-checked", "c14.concurrent-flush-images", "c14.length-changing-codec-cases", "c14.copyto-into-existing-store"} {
 				if st[k] == 0 {
 					return "no " + k + " observed"
 				}
@@ -54,6 +54,12 @@ func runC14(ctx *Ctx, idx int) Result {
 	if hc.KeyClass == gen.KeysMixed || hc.KeyClass == gen.KeysLong {
 		hc.NKeys = 5
 		ctx.Stats["c14.max-key-cases"]++
+	}
+	if idx%6 == 4 {
+		// a value codec whose on-disk form is twice as long as Item.Val: record lengths, item locations
+		// and aggregates all follow ItemValLength
+		cfg.CB = driver.CBValDouble
+		ctx.Stats["c14.length-changing-codec-cases"]++
 	}
 	h := NewHist(r, cfg, hc, fmt.Sprintf("c14-%d", idx))
 	e := h.E
@@ -103,6 +109,42 @@ func runC14(ctx *Ctx, idx int) Result {
 			ctx.Stats["c14.copyto-images-decoded"]++
 		}
 		e.AfterStep()
+	}
+	if idx%5 == 3 && !e.Failed() && e.S != nil && e.OpenPins() == 0 {
+		// CopyTo into a file that already holds a LARGER store (same collection names among others):
+		// the file it leaves must decode, from its last root record, to that store with the source's
+		// collections set over it
+		pre := driver.NewEnvCmps(fmt.Sprintf("c14pre-%d", idx), driver.Config{}, e.Cmps)
+		names := append(e.M.Live.Names(), "only-in-the-destination")
+		for round := 0; round < 3 && !pre.Failed(); round++ {
+			for _, n := range names {
+				cmp := model.CmpBytes
+				if mc, ok := e.M.Live.Colls[n]; ok {
+					cmp = mc.Cmp
+				}
+				if round == 0 {
+					pre.SetCollection(n, cmp)
+				}
+				for i := 0; i < 12; i++ {
+					pre.SetItem(n, []byte(fmt.Sprintf("%04d", r.Intn(60))), r.Bytes(r.Range(200, 600)), h.Prios.Next(r), false)
+				}
+			}
+			pre.Flush()
+		}
+		if !pre.Failed() {
+			e.DstPre = &driver.DstPre{Img: pre.F.Bytes(), State: pre.M.Durable()}
+			fe := []int{1, 3, 50}[r.Intn(3)]
+			if dst := e.CopyTo(-1, fe); dst != nil && !e.Failed() {
+				b := dst.Bytes()
+				img, err := decoder.Decode(b, int64(len(b)), driver.CmpLookup(e.LastCopyModel))
+				if err != nil {
+					e.Failf("C14/copyto-into-existing-store/structural", "independent decoder rejects the file CopyTo left (the destination held a larger store before): %v", err)
+				} else if d := driver.CompareImage(img, e.LastCopyModel); d != "" {
+					e.Failf("C14/copyto-into-existing-store/state-mismatch", "the file CopyTo left (the destination held a larger store before) decodes to a different state: %s", d)
+				}
+				ctx.Stats["c14.copyto-into-existing-store"]++
+			}
+		}
 	}
 	ctx.Add(e)
 	var hash uint64 = uint64(idx)
